@@ -95,6 +95,9 @@ structure Entry where
   body : List Nat := []
   /-- the fetch (`FwdState`) still holds its lock on the entry -/
   fwd : Bool := true
+  /-- ghost: `RELEASE_REQUEST` was already set when the reply header arrived (`reusableReply` then answers `doNotCacheButShare`
+  without looking at the header) -/
+  relAtHdr : Bool := false
 deriving Repr, Inhabited
 
 inductive Phase where
@@ -290,7 +293,7 @@ def replyHeaders (O : Nat → Resp) (s : State) (e : Nat) : State :=
             if r2.2 then r2.1 else releaseRequest r2.1 e true
         match s2.entries e with
         | none => s2
-        | some ent2 => setE s2 e { ent2 with hdr := some h, reqColl := false }
+        | some ent2 => setE s2 e { ent2 with hdr := some h, reqColl := false, relAtHdr := ent1.relReq }
 
 /-- up to `k` more body bytes arrive from the origin and are appended (`truncateVirginBody`: never beyond Content-Length) -/
 def replyData (O : Nat → Resp) (s : State) (e k : Nat) : State :=
